@@ -208,7 +208,17 @@ void gen_elem(const GroupVT* vt, Rng& r, const ElemSpec& sp, double* c) {
       double sg = sp.neg_hemisphere ? -1.0 : 1.0;
       for (int i = 0; i < 4; ++i) c[b.off + i] = round_scalar(vt, sg * q[i]);
     }
+    if (sp.norm_scale != 1.0)
+      for (int i = 0; i < b.len; ++i) c[b.off + i] = round_scalar(vt, c[b.off + i] * sp.norm_scale);
   }
+}
+
+void spice_elem_spec(const GroupVT* vt, Rng& r, ElemSpec& sp) {
+  double u = r.unit();
+  if (u < 0.10) sp.angle = std::fabs(r.logmag(1e-12, 1e-7));                 // small-angle branch of log
+  else if (u < 0.14) sp.angle = 0.0;
+  else if (u < 0.20) sp.angle = M_PI - std::fabs(r.logmag(1e-10, 1e-3));     // close to pi
+  if (r.chance(0.12)) sp.norm_scale = 1.0 + (r.chance(0.5) ? 0.9 : -0.9) * vt->eps;
 }
 
 void gen_tan(const GroupVT* vt, Rng& r, const TanSpec& sp, double* c) {
